@@ -16,6 +16,7 @@ import (
 	"sort"
 	"strconv"
 	"strings"
+	"sync"
 	"time"
 
 	"github.com/aldas/go-modbus-client/server"
@@ -540,6 +541,7 @@ func streamSrvConn(seed uint64, thorough bool) {
 	if thorough {
 		vol = 10
 	}
+	paused := srvPausedStart(seed) // runs beside everything below, emitted at the end
 	g := newSrvRig(0)
 	// corpus
 	fc3 := []byte{0x12, 0x30, 0, 0, 0, 6, 1, 3, 0, 0x6B, 0, 3}
@@ -692,8 +694,81 @@ func streamSrvConn(seed uint64, thorough bool) {
 	ok = g1.stop() && ok
 	// every combination of callbacks set / left nil x every handler class, in child processes
 	srvCfgChildren(seed, thorough, "conn")
+	paused()
 	if !ok {
 		emit("srv_conn", L(I(0), I(9), L(), B(nil)), L(L(), I(98), I(0), L(B(nil), I(1), I(0))))
+	}
+}
+
+// ---------- slow clients: a real pause between the fragments of one request ----------
+
+// srvPause is longer than any "the client has given up" heuristic of a second, and far below the
+// server's idle timeout (25 s): the connection must be kept and the request answered when its
+// rest arrives, whatever the pause.
+const srvPause = 1300 * time.Millisecond
+
+// srvPausedStart starts the slow-client cases (client kind 4), each on a server of its own and
+// all at the same time, and returns the function that waits for them and emits them in order.
+func srvPausedStart(seed uint64) func() {
+	r := newRng(seed ^ 0x9a05e)
+	type pcase struct {
+		g      *srvRig
+		chunks [][]byte
+		pause  []bool // sleep after chunk i
+		args   V
+		outc   V
+	}
+	var cases []*pcase
+	add := func(chunks [][]byte, pause ...bool) {
+		cases = append(cases, &pcase{g: newSrvRig(0), chunks: chunks, pause: pause})
+	}
+	a := srvLegal(r, 3, 0x6000, 0) // 12 bytes
+	for _, c := range []int{1, 6, 7, 8, len(a) - 1} {
+		b := srvLegal(r, srvFcs[r.intn(10)], 0x6101+uint16(c)<<4, 0) // the next request must not be glued to anything
+		add([][]byte{a[:c], a[c:], b}, true, false, false)
+	}
+	w := srvLegal(r, 16, 0x6200, 1) // a longer request in three fragments, two pauses
+	add([][]byte{w[:9], w[9 : len(w)/2+5], w[len(w)/2+5:], srvLegal(r, 17, 0x6301, 0)}, true, true, false, false)
+
+	var wg sync.WaitGroup
+	for _, pc := range cases {
+		wg.Add(1)
+		go func(pc *pcase) {
+			defer wg.Done()
+			stream := srvConcat(pc.chunks)
+			k := pc.g.dial()
+			for i, ch := range pc.chunks {
+				if !k.send(ch) {
+					break
+				}
+				if pc.pause[i] {
+					time.Sleep(srvPause)
+				}
+			}
+			k.barrier()
+			fail := k.finish()
+			if fail == nil && !bytes.Equal(k.got, k.rec.written) {
+				fail = errSrvTimeout
+			}
+			k.rec.mu.Lock()
+			reads := srvChunksV(k.rec.reads)
+			k.rec.mu.Unlock()
+			outc := []V{L(), I(99), I(0)}
+			if fail == nil {
+				outc = pc.g.connOutcome(k.rec, 0)
+			}
+			if !pc.g.stop() {
+				outc = []V{L(), I(98), I(0)}
+			}
+			pc.args = L(I(0), I(4), reads, B(stream))
+			pc.outc = L(append(outc, srvWhole(0, stream))...)
+		}(pc)
+	}
+	return func() {
+		wg.Wait()
+		for _, pc := range cases {
+			emit("srv_conn", pc.args, pc.outc)
+		}
 	}
 }
 
